@@ -639,6 +639,29 @@ def norepl_all_permanent(case):
     return any(con['type'] == 'norepl' and all(c in W for c in con['choices']) for con in case['cons'])
 
 
+def constrained_option_in_incompatibility(case):
+    """K32 guard: a choice constraint over choices of which an option (or a node that option derives by ordinary edges)
+    takes part in an incompatibility constraint -- constraint and incompatibility together can then leave a constrained
+    choice without any option"""
+    inc_nodes = {x for p in case.get('incompat', []) for x in p}
+    if not inc_nodes or not case.get('cons'):
+        return False
+    opts = {sc['id']: set(sc['options']) for sc in case.get('sel', [])}
+    for con in case.get('cons', []):
+        for c in con['choices']:
+            for o in opts.get(c, set()):
+                seen, todo = {o}, [o]
+                while todo:
+                    x = todo.pop()
+                    for s_, t_ in case.get('edges', []):
+                        if s_ == x and t_ not in seen:
+                            seen.add(t_)
+                            todo.append(t_)
+                if seen & inc_nodes:
+                    return True
+    return False
+
+
 def guards(case):
     """ids of the known-finding classes this case falls into"""
     case = {k: v for k, v in case.items() if not k.startswith('_')}
@@ -661,6 +684,8 @@ def guards(case):
         out.add('K13')
     if norepl_all_permanent(case):
         out.add('K15')
+    if constrained_option_in_incompatibility(case):
+        out.add('K32')
     return out
 
 
